@@ -496,3 +496,62 @@ def run_writers(prog, tier, repo):
                                   f'request API unwraps rely on) can be broken here')
     res.floor('mutable accesses to state maps', n, 8)
     return [res]
+
+
+# ---------------------------------------------------------------------------------------------------------------------
+# FIND-UNWRAP (C11): `iter().find(pred).unwrap()` on the request path aborts the server whenever no element satisfies `pred`.
+# The one such site of the pinned tree (the class enclosing a cursor position) is justified by the position search that ran
+# before it: `search_module_locally` only reports a hit inside a toplevel whose location contains the position, so *the bare
+# containment test* is known to succeed for some toplevel. Any conjunct added to the predicate (a kind test, a name test) is
+# not covered by that justification - the search also reports hits inside interfaces. The rule: the predicate of an unwrapped
+# `find` / `position` / `rfind` in the services crate is a single call of `Location::contains_position` on a location of the
+# element, with no further branch.
+
+JUSTIFIED_PREDICATES = ('contains_position',)
+
+
+def run_find_unwrap(prog, tier, repo):
+    from ..facts import strip_refs
+    res = RuleResult('FIND-UNWRAP', 'C11: a search result that a request handler unwraps comes from a search whose predicate is the bare '
+                     'containment test established by the preceding position lookup (no added conjunct can make it fail)')
+    n = 0
+    for b in sorted(prog.bodies.values(), key=lambda x: x.name):
+        if b.crate != 'samlang_services' or '::tests' in b.name or b.name.split('::')[-1].startswith('test'):
+            continue
+        for bl in b.blocks:
+            t = bl.term
+            if bl.cleanup or t[0] != 'call' or not t[3]:
+                continue
+            nm = callee(t)[1] or ''
+            if nm.split('::')[-1] not in ('unwrap', 'expect') or 'Option' not in nm or t[3][0][0] not in ('c', 'm'):
+                continue
+            r, _ = root_local(b, t[3][0][1].local)
+            sd = single_def(b, r) if r is not None else None
+            if not (sd and sd[1] == 'term'):
+                continue
+            src = (callee(sd[2])[1] or '').split('::')[-1]
+            if src not in ('find', 'rfind', 'position', 'rposition', 'find_map'):
+                continue
+            n += 1
+            k = sum(1 for i in res.instances if i.key.startswith(f'find-unwrap:{b.name}#')) + 1
+            key = f'find-unwrap:{b.name}#{k}'
+            clos = [strip_refs(b.locals[o[1].local]) for o in sd[2][3][1:] if o[0] in ('c', 'm')]
+            clos = [c for c in clos if c.k == 'closure' and c.id in prog.bodies]
+            if len(clos) != 1:
+                res.violation(key, b.loc(t[7]), f'{b.name} unwraps the result of `{src}` whose predicate is not a closure of this crate: '
+                              f'nothing shows that an element always matches, so the request can abort the server')
+                continue
+            kb = prog.bodies[clos[0].id]
+            branches = [bl2.term[4] for bl2 in kb.blocks if not bl2.cleanup and bl2.term[0] == 'switch']
+            calls = [(callee(bl2.term)[1] or '?') for bl2 in kb.blocks if not bl2.cleanup and bl2.term[0] == 'call']
+            tests = [c for c in calls if c.split('::')[-1] in JUSTIFIED_PREDICATES]
+            if branches or len(tests) != 1:
+                res.violation(key, kb.loc(branches[0] if branches else None),
+                              f'{b.name} unwraps the result of `{src}`, and the predicate ({kb.loc()}) is not the bare containment test '
+                              f'({"it branches: a conjunct was added" if branches else "no contains_position call"}): the position '
+                              f'lookup that precedes it only guarantees that some element *contains the position*, so for a hit inside '
+                              f'an element the extra condition rejects the search finds nothing and the unwrap aborts the server')
+            else:
+                res.ok(key, b.loc(t[7]), 'predicate is the bare containment test established by the position lookup')
+    res.floor('unwrapped search results in the services crate', n, 1)
+    return [res]
